@@ -176,7 +176,8 @@ def main(argv=None):
     n_concrete = 0
     from engine import replay as replay_mod
     for c in concrete:
-        rec = {"module": modname, "fn": c["fn"], "P": c.get("P", {}), "args": c["args"], "name": c.get("name", "selftest")}
+        rec = {"module": modname, "fn": c["fn"], "P": c.get("P", {}), "args": c["args"], "name": c.get("name", "selftest"),
+               "open_tags": [f["tag"] for f in open_known if f.get("tag")]}
         n_concrete += 1
         try:
             ok, ce = replay_mod.replay(rec)
@@ -198,7 +199,8 @@ def main(argv=None):
 
     # ---- 2. symbolic obligations -----------------------------------------------------------
     results = []
-    tasks = [{"module": modname, "ob": o, "exclude": []} for o in obs]
+    open_tags = [f["tag"] for f in open_known if f.get("tag")]
+    tasks = [{"module": modname, "ob": o, "exclude": [], "open_tags": open_tags} for o in obs]
     ctx = mp.get_context("fork")
     # longest first
     order = sorted(range(len(tasks)), key=lambda i: -float(tasks[i]["ob"].get("timeout", 60)))
@@ -209,9 +211,13 @@ def main(argv=None):
         out = run_parallel(ctx, pending, a.j)
         again = []
         for task, res in zip(pending, out):
+            for tg in res.get("known_tags", []) or []:
+                for f in open_known:
+                    if f.get("tag") == tg and f not in known_hits:
+                        known_hits.append(f)
             if res.get("status") == "refuted":
                 rec = {"module": modname, "fn": res["fn"], "P": res["P"], "name": res["name"], "kind": res["kind"],
-                       "args": res["ce"].get("args"), "ce": res["ce"]}
+                       "args": res["ce"].get("args"), "ce": res["ce"], "open_tags": open_tags}
                 path = write_replay(rec)
                 rc, rout = replay_file(path)
                 res["replay"] = {"path": path, "rc": rc}
